@@ -349,8 +349,12 @@ class DQN(RLAlgorithm):
 
     def soft_update(self) -> None:
         """Soft updates target network."""
+        # The target weights are detached from the target module's parameters in
+        # init_hook(), so actor_target.parameters() is empty: blend the detached
+        # tensors the target network actually uses with the live online weights.
         for eval_param, target_param in zip(
-            self.actor.parameters(), self.actor_target.parameters()
+            self.param_vals.values(include_nested=True, leaves_only=True),
+            self.target_params.values(include_nested=True, leaves_only=True),
         ):
             target_param.data.copy_(
                 self.tau * eval_param.data + (1.0 - self.tau) * target_param.data
